@@ -393,6 +393,26 @@ func init() {
 		f2, off2 = writeCasesAt(outDir, "form", "From KV Require Import Model.Base Model.Json Model.Schema Model.Request Model.ParamCodec Model.FormBody Proofs.FormProofs Exec.C06FormExec.", "c06form", "judge_form", fterms, meta.Shard, len(terms))
 		meta.Files = append(meta.Files, f2...)
 		meta.Offsets = append(off1, off2...)
+		// the serialisation method an Encoding Object stands for, against enc_method (Model/FormBody.v)
+		if replay == "" {
+			var eterms []string
+			tr, fa := true, false
+			for _, style := range []string{"", "form", "spaceDelimited", "pipeDelimited", "deepObject"} {
+				for _, ex := range []*bool{nil, &tr, &fa} {
+					sm := (&openapi3.Encoding{Style: style, Explode: ex}).SerializationMethod()
+					exs, exj := "None", any(nil)
+					if ex != nil {
+						exs, exj = "(Some "+coqBool(*ex)+")", *ex
+					}
+					meta.Cases = append(meta.Cases, map[string]any{"input": map[string]any{"encoding_object": map[string]any{"style": style, "explode": exj}}, "go": map[string]any{"style": sm.Style, "explode": sm.Explode}})
+					eterms = append(eterms, fmt.Sprintf("mkEnc %s %s %s %s", coqStr(style), exs, coqStr(sm.Style), coqBool(sm.Explode)))
+				}
+			}
+			f3, off3 := writeCasesAt(outDir, "enc", "From KV Require Import Model.Base Model.FormBody Exec.C06FormExec.", "c06enc", "judge_enc", eterms, meta.Shard, len(terms)+len(fterms))
+			meta.Files = append(meta.Files, f3...)
+			meta.Offsets = append(meta.Offsets, off3...)
+			meta.Histogram["encoding object methods"] = len(eterms)
+		}
 		writeMeta(outDir, meta)
 		fmt.Fprintf(os.Stderr, "C06: %d cases (+%d forms)\n", len(cases), len(fterms))
 	}
